@@ -11,7 +11,7 @@ DAY = 86400 * 10**9
 def main():
     ck = Check('C20')
     prog = ck.program('epoch_manager', 'white_whale_std')
-    for nhooks in (0, 1, 2, 3):
+    for nhooks in ((0, 1, 2, 3) if ck.tier == 'quick' else (0, 1, 2, 3, 4, 5, 6)):
         def body(it, nhooks=nhooks):
             c = it.ctx
             eid = c.sym('id', 64); start = c.sym('start', 64); dur = c.sym('duration', 64); gen = c.sym('genesis', 64)
